@@ -10,7 +10,8 @@ import Mathlib.Tactic.FieldSimp
                           the objective-space shift: what the borderline band rests on;
 * `rdot_sq_le`         — Cauchy–Schwarz for real list vectors;
 * `cov_ball_iff`       — balls: `Cov ↔ ∃ d, ‖d − (c₂−c₁)‖² ≤ (a₁+a₂)² ∧ W d ≥ t`;
-* `ballVerdict_yes/no` — soundness of the KKT-certified ball verdicts;
+* `ballVerdict_yes/no` — soundness of the KKT-certified ball verdicts (totality:
+                          `Proofs/CoveredComplete.lean`);
 * `checkEllWitness_sound`, `checkEllSep_sound` — the two certificate checkers for general
                           ellipsoids `{c + L u | ‖u‖ ≤ a}`.
 -/
@@ -383,7 +384,7 @@ theorem ballVerdict_no (W : Mat) (c1 c2 t : Vec) (a1 a2 : ℚ) (ht : W.length = 
         nlinarith
     · split at h
       · rename_i hf'
-        obtain ⟨y, hy⟩ := feasible_false hf'
+        obtain ⟨y, hy⟩ := (feasibleC_cert _ _).2 hf'
         exact checkFarkas_sound hy ⟨d, hsat⟩
       · cases h
 
